@@ -139,6 +139,16 @@ pub fn generate(w: &mut dyn Write, seed: u64, thorough: bool) {
     addrs.push("4:00000000:0".into());
     addrs.push("4:ffffffff:65535".into());
     addrs.push(format!("6:{}:65535", "ff".repeat(16)));
+    // IPv6 addresses with a special meaning (unspecified, loopback, IPv4-mapped, IPv4-compatible, 6to4, link-local, multicast):
+    // they are addresses like any other and must survive as the same 16 bytes
+    for h in ["00000000000000000000000000000000", "00000000000000000000000000000001", "00000000000000000000ffff7f000001", "00000000000000000000ffffc0000201",
+              "00000000000000000000ffff00000000", "00000000000000000000ffffffffffff", "000000000000000000000000c0000201", "0064ff9b0000000000000000c0000201",
+              "2002c000020100000000000000000001", "fe800000000000000000000000000001", "ff020000000000000000000000000001", "20010db8000000000000000000000000"] {
+        addrs.push(format!("6:{}:{}", h, rng.pick(&ports)));
+    }
+    for _ in 0..(if thorough { 64 } else { 8 }) {
+        addrs.push(format!("6:00000000000000000000ffff{}:{}", hex(&rng.bytes(4)), rng.pick(&ports)));
+    }
     let mut wires: Vec<Vec<u8>> = Vec::new();
     let mut vwires: Vec<Vec<u8>> = Vec::new();
     for a in &addrs {
